@@ -46,6 +46,7 @@ type histStart struct {
 	decoded    bool       // result of a successful decode
 	isNil      bool
 	tokens     map[string]string
+	panicOK    bool // zero struct literals: a panicking query is a result like any other, not a violation
 }
 
 type histOp struct {
@@ -129,6 +130,22 @@ func histStarts(thorough bool) []histStart {
 				t, _ := v3.NewTemporal().Decode("CVSS:3.0/AV:N/AC:L/PR:L/UI:N/S:U/C:H/I:L/A:N/E:P/RL:T/RC:U")
 				return &v3.Environmental{Temporal: t, CR: v3.ConfidentialityRequirementHigh, MS: v3.ModifiedScopeChanged, MAV: v3.ModifiedAttackVectorLocal}
 			}, false, false, nil)
+		}
+		// zero struct literals with nil embedded pointers: outside C12 (several queries panic in the
+		// pinned library), but whatever a query answers — a panic included — it must leave the object
+		// as it was and answer the same next time (round 5, C15-A-r5: accessors that lazily create
+		// the missing embedded object)
+		zero := func(id string, level int, mk func() any) {
+			st = append(st, histStart{id: id, ver: ver, level: level, make: mk, panicOK: true})
+		}
+		if ver == 2 {
+			zero("v2 &Temporal{} (nil embedded base)", 1, func() any { return &v2.Temporal{} })
+			zero("v2 &Environmental{} (nil embedded temporal)", 2, func() any { return &v2.Environmental{} })
+			zero("v2 &Environmental{Temporal: &Temporal{}}", 2, func() any { return &v2.Environmental{Temporal: &v2.Temporal{}} })
+		} else {
+			zero("v3 &Temporal{} (nil embedded base)", 1, func() any { return &v3.Temporal{} })
+			zero("v3 &Environmental{} (nil embedded temporal)", 2, func() any { return &v3.Environmental{} })
+			zero("v3 &Environmental{Temporal: &Temporal{}}", 2, func() any { return &v3.Environmental{Temporal: &v3.Temporal{}} })
 		}
 		vecs := seeds(ver)
 		if ver == 3 {
@@ -289,6 +306,10 @@ func histOps(thorough bool) []histOp {
 		{3, 1, "CVSS:3.1/AV:A/AC:L/PR:L/UI:N/S:C/C:N/I:H/A:L/E:U/RL:T"},
 		{2, 0, "AV:A/AC:H/Au:M/C:C/I:P/A:N"},
 		{3, 2, "CVSS:3.1/AV:N/AC:L/PR:N/UI:R/S:C/C:H/I:L/A:N/MS:H"},
+		// v2 vectors without one of the optional groups (whatever marks a group as present must be per object)
+		{2, 2, "AV:L/AC:H/Au:N/C:C/I:C/A:C/CDP:H/TD:H/CR:M/IR:M/AR:M"},
+		{2, 2, "AV:L/AC:H/Au:N/C:C/I:C/A:C"},
+		{2, 1, "AV:N/AC:M/Au:N/C:P/I:P/A:P"},
 	}
 	for _, d := range dvecs {
 		d := d
@@ -570,7 +591,7 @@ func histShard(r *ev.Run, thorough bool, shard, shards int) {
 					outcomes[res] = true
 					full := append(append([]int{}, p.ops...), oi)
 					cs := map[string]any{"history": describePath(st, ops, full)}
-					if strings.HasPrefix(res, "PANIC") {
+					if strings.HasPrefix(res, "PANIC") && !st.panicOK {
 						r.Violate(ev.Violation{Kind: "operation-panics", Case: cs, Observed: res, Expected: "no panic"})
 						continue
 					}
@@ -737,6 +758,7 @@ func histEntryMain(args []string) {
 
 func init() {
 	register("C15", "model_checking", func(r *ev.Run, thorough bool) {
+		r.Phase("revisit distances", func() { revisitDistances(r, thorough) })
 		r.Phase("history search", func() { histRun(r, thorough) })
 		r.Phase("vector processing orders", func() { processingOrders(r, thorough) })
 		r.Phase("neighbour processing orders", func() { neighbourOrders(r, thorough) })
@@ -747,6 +769,83 @@ func init() {
 		r.Assume("results are compared between histories (differential oracle) and with a pristine child process; nothing is assumed about what the right result is")
 		r.Assume("private (unexported) state may change as long as observables and results agree; such changes only add states")
 	})
+}
+
+// revisitDistances: long single-goroutine histories of fresh-object decodes.  For every distance
+// d = 1..maxD: decode X, decode d further vectors never seen before (the last one is Y), decode X
+// again, decode Y again; the two repeated decodes must give what the first ones gave.  Every
+// vector is new to the process when first decoded, so whatever the library remembers between
+// decodes (a bounded cache, a ring, an index) is driven through every fill level and every
+// revisit distance up to maxD — 272 in the quick tier (rings of up to 256 entries wrap), 1,100 in
+// the thorough tier (round 5, C05-A-r5: a 256-entry decode cache whose index goes stale when a
+// hit in the older half is promoted).
+func revisitDistances(r *ev.Run, thorough bool) {
+	maxD := 272
+	if thorough {
+		maxD = 1100
+	}
+	var n int64
+	for _, ver := range []int{2, 3} {
+		for _, level := range []int{2, 1} {
+			ms := spec.UpTo(ver, level)
+			total := uint64(1)
+			for _, m := range ms {
+				total *= uint64(len(m.Codes))
+			}
+			next := uint64(0)
+			fresh := func() (string, string) {
+				i := (next*1000003 + 12345) % total
+				next++
+				tok := map[string]string{}
+				for k := len(ms) - 1; k >= 0; k-- {
+					c := uint64(len(ms[k].Codes))
+					tok[ms[k].Name] = ms[k].Codes[i%c].Code
+					i /= c
+				}
+				label := ""
+				if ver == 3 {
+					label = spec.V3Versions[next%2]
+				}
+				s := canonicalWritten(ver, level, label, tok)
+				o, err, pan := lib.DecodeNew(ver, level, s)
+				n++
+				if o == nil {
+					return s, fmt.Sprintf("rejected %s panic=%q", lib.Class(err), pan)
+				}
+				return s, observables(o)
+			}
+			again := func(s, want string, d int, what string) {
+				o, err, pan := lib.DecodeNew(ver, level, s)
+				n++
+				got := ""
+				if o == nil {
+					got = fmt.Sprintf("rejected %s panic=%q", lib.Class(err), pan)
+				} else {
+					got = observables(o)
+				}
+				if got != want {
+					r.Violate(ev.Violation{Kind: "result-depends-on-what-was-decoded-before", Case: map[string]any{"cvss": ver, "decoder": spec.LevelNames[level], "vector": s,
+						"history": fmt.Sprintf("%s: decode X, decode %d vectors new to the process (the last is Y), decode X again, decode Y again; all on fresh objects, one goroutine, earlier distances before it", what, d)},
+						Observed: got, Expected: want + "  (what the first decode of this vector returned)"})
+				}
+			}
+			bad := r.Violations()
+			for d := 1; d <= maxD && r.Violations() < bad+3; d++ {
+				if next+uint64(d)+2 > total {
+					break // the domain of this level is used up: every vector was new so far
+				}
+				x, xo := fresh()
+				var y, yo string
+				for k := 0; k < d; k++ {
+					y, yo = fresh()
+				}
+				again(x, xo, d, "X")
+				again(y, yo, d, "Y")
+			}
+		}
+	}
+	r.Add("revisit_distance_decodes", n)
+	r.Add("evaluations", n)
 }
 
 // mergeMapOrder adds what the map-order explorer (mc/cmd/sched maporder, run by ./check before
